@@ -114,6 +114,27 @@ MUST_FIRE = [
      "        annotator_utilities[:, ~A] = np.nan\n", ""),
     ("pair-mask-deleted", ["C07", "C20"], ["R7.3", "R20.3"], P + "pool/multiannotator/_wrapper.py",
      "            ] = np.nan\n\n            annotator_ps += 1", "            ] = 0\n\n            annotator_ps += 1"),
+    ("pairs-count-wrong-case", ["C07"], ["R7.6"], P + "base.py",
+     "n_candidate_pairs = len(candidates) * len(y.T)", "n_candidate_pairs = len(X) * len(y.T)"),
+    ("quire-position-not-from-mask", ["C08"], ["R8.1"], P + "pool/_quire.py",
+     "i_a = int(np.sum(mask_a[:s]))", "i_a = int(s) - int(np.sum(mask_l))"),
+    ("stream-random-stale-counter", ["C10", "C04"], ["R10.6", "R4.2", "R4.1"], P + "stream/_stream_baselines.py",
+     "tmp_observed_samples * self.budget_ - tmp_queried_samples\n            )\n            queried[i] = (\n                self.allow_exceeding_budget",
+     "tmp_observed_samples * self.budget_ - self.queried_samples_\n            )\n            queried[i] = (\n                self.allow_exceeding_budget"),
+    ("biqf-sim-copy-list", ["C10"], ["R10.6"], P + "stream/budgetmanager/_balanced_incremental_quantile_filter.py",
+     "tmp_history_sorted_ = copy(self.history_sorted_)", "tmp_history_sorted_ = list(self.history_sorted_)"),
+    ("skl-raw-cost-matrix", ["C11"], ["R11.5"], P + "classifier/_wrapper.py",
+     "costs = np.dot(P, self.cost_matrix_)", "costs = np.dot(P, self.cost_matrix)"),
+    ("pool-validate-isnan", ["C09"], ["R9.4", "R9.1"], P + "base.py",
+     "seed_mult = int(np.sum(is_unlabeled(y, self.missing_label_))) + 1", "seed_mult = int(np.sum(np.isnan(y))) + 1"),
+    ("falcun-zero-before-power", ["C02"], ["R2.3"], P + "pool/_falcun.py",
+     "            rel_cand = (unc_cand + dist_cand) ** self.gamma\n            rel_cand[query_indices] = 0\n",
+     "            rel_cand = unc_cand + dist_cand\n            rel_cand[query_indices] = 0\n            rel_cand = rel_cand**self.gamma\n"),
+    ("typiclust-mask-in-one-branch", ["C01", "C02"], ["R1.4m", "R2.3"], P + "pool/_typi_clust.py",
+     "                cluster_sizes[cluster_id] = 0\n            utilities[i, mapping] = typicality[mapping]\n            utilities[i, query_indices] = np.nan\n",
+     "                typicality[query_indices] = np.nan\n                cluster_sizes[cluster_id] = 0\n            utilities[i, mapping] = typicality[mapping]\n"),
+    ("bald-raw-random-state", ["C06"], ["R6.4"], P + "pool/_bald.py",
+     "            eps=self.eps,\n            random_state=self.random_state_,\n", "            eps=self.eps,\n            random_state=self.random_state,\n"),
     # ---- C09
     ("us-sentinel-dropped", ["C09"], ["R9.1"], P + "base.py",
      "ulbd_idx = unlabeled_indices(y, self.missing_label_)", "ulbd_idx = unlabeled_indices(y)"),
